@@ -34,8 +34,36 @@ def cfg(rng, kind):
     return "%d:%d:%d:%d:%d:%d" % (rb, sb, nd, ad, fa, ws)
 
 
+def gen_straddle(rng, i):
+    """honest network, partially accepted segment retransmitted whole: small receive buffer, stalled reader, the window update and the ACK of the
+    partial acceptance are lost, the sender closes (its FIN flush ignores the window, see known finding) and later retransmits the whole segment"""
+    conv = rng.choice([0, 7, rng.randrange(1 << 32)])
+    rb = rng.choice([1024, 1024, 2000, 4096])
+    ca = "0:0:1:%d:1:1:%d" % (rng.choice([100, 0]), conv)
+    cb = "%d:0:1:%d:1:1:%d" % (rb, rng.choice([100, 0]), conv)
+    seed = rng.randrange(1, 250)
+    t = 1000
+    ops = ["cA", "N", "N", "N"]
+    ops.append("sA%d:%d" % (rb + rng.choice([100, 300, 600, 1000, 1284, 2000]), seed))
+    ops.append("Q%d" % rng.choice([1, 2]))
+    ops.append("rB%d" % rng.choice([100, 200, 400, 700]))
+    ops += rng.choice([["X"], ["N"], ["X", "X"], []])
+    ops.append("hA1")
+    for _ in range(rng.randrange(1, 5)):
+        ops.append(rng.choice(["N", "N", "X", "X", "D1"]))
+    for _ in range(rng.randrange(1, 4)):
+        t += rng.choice([300, 1000, 3000, 6000]); ops += ["T%d" % t, "kA"]
+        ops += [rng.choice(["N", "N", "X"]) for _ in range(rng.randrange(1, 4))]
+        if rng.random() < 0.4:
+            ops.append("rB%d" % rng.choice([50, 300, 1000]))
+    ops += ["Q6", "rB200000", "rA200000", "Q4", "rB200000", "hB1", "Q6", "rA200000", "rB200000", "nA0", "nB0"]
+    return "p%d %s %s %s" % (i, ca, cb, " ".join(ops)), "straddle"
+
+
 def gen_case(rng, i, kinds):
     kind = rng.choice(kinds)
+    if kind == "straddle":
+        return gen_straddle(rng, i)
     conv = rng.choice([0, 7, 0xffffffff, rng.randrange(1 << 32)])
     ca = cfg(rng, kind) + ":%d" % conv
     cb = cfg(rng, kind) + ":%d" % (conv if kind != "foreign" or rng.random() < 0.3 else (conv + 1) % (1 << 32))
